@@ -45,11 +45,7 @@ func checkC09(r *core.Run) {
 	evalArgAll(r, "G-term", "sao/keeper.msgServer.Terminate", "model/keeper.Keeper.TerminateOrder", 0, []string{fGetOrder + "(elem(" + meta + ".Orders))#0"}, "orders terminated are those of the checked model")
 
 	// ---- Renew (owner only)
-	metaR := fGetMeta + "(elem(" + msg + ".Proposal.Data))#0"
-	evalGuard(r, "G-renew", "sao/keeper.msgServer.Renew", effSel{AllWrites: true}, []clause{
-		cl("request-signature-verified", sigOK),
-		cl("signer-is-owner", guard.Eq(metaR+".Owner", sigDid)),
-	}, 6)
+	ruleRenewOwner(r)
 
 	// ---- UpdataPermission -> model.UpdatePermission
 	evalGuard(r, "G-perm", "sao/keeper.msgServer.UpdataPermission", effSel{AllWrites: true}, []clause{
@@ -249,4 +245,16 @@ func ruleSigPath(r *core.Run) {
 		}
 	}
 	r.Floor("sig_payload_stores", np, 1)
+}
+
+// ruleRenewOwner (G-renew): shared by C09 (only the owner renews) and C10 (the
+// renewal order is owned by, and charged to, the model owner: the owner must be
+// the signer, a read-write grantee's signature is not the payer's consent).
+func ruleRenewOwner(r *core.Run) {
+	sig := sigTerm()
+	metaR := fGetMeta + "(elem(" + msg + ".Proposal.Data))#0"
+	evalGuard(r, "G-renew", "sao/keeper.msgServer.Renew", effSel{AllWrites: true}, []clause{
+		cl("request-signature-verified", guard.Eq(sig+"#1", "nil")),
+		cl("signer-is-owner", guard.Eq(metaR+".Owner", sig+"#0")),
+	}, 6)
 }
